@@ -52,7 +52,7 @@ Untouched(a)  == Tmpl(a, <<>>)
 (* ---- outcomes ---- *)
 Out(cls, rcs, hs, mem) ==
   [cls |-> cls, rc |-> rcs, h |-> hs, mem |-> mem, ret |-> {AnyV}, o1 |-> {AnyV},
-   rtag |-> {"C06"}, fault |-> "none", foff |-> {AnyV}]
+   rtag |-> {"C06"}, fault |-> "none", foff |-> {AnyV}, sg |-> 2]
 OkOut(mem)        == Out("ok", {EOK}, {<<>>}, mem)
 StatusOut(rc, mem) == Out("ok", {rc}, {<<>>}, mem)          \* plain status, no handler
 ErrOut(c, mem)    == Out("err", {c}, {<<c>>}, mem)
@@ -65,7 +65,8 @@ WithFault(o, k, offs) == [o EXCEPT !.fault = k, !.foff = offs]
 (* ---- the comparator ---- *)
 MisCells(e, o) == {i \in 1..Len(e.pre) : ~CellOK(o.mem[i], e.pre[i], e.post[i])}
 HOK(e, o)    == e.h \in o.h /\ e.hn = Len(e.h)
-RetOK(e, o)  == In(e.ret, o.ret) /\ In(e.o1, o.o1)
+Sgn(x) == IF x < 0 THEN -1 ELSE IF x > 0 THEN 1 ELSE 0
+RetOK(e, o)  == In(e.ret, o.ret) /\ In(e.o1, o.o1) /\ (o.sg = 2 \/ Sgn(e.o1) = o.sg)     \* sg: required sign of the comparison result
 FaultOK(e, o) == e.fault = o.fault /\ (e.fault = "none" \/ In(e.foff, o.foff))
 Matches(e, o) == /\ FaultOK(e, o) /\ e.frame_ok /\ e.rc \in o.rc /\ HOK(e, o) /\ RetOK(e, o)
                  /\ MisCells(e, o) = {}
